@@ -150,3 +150,505 @@ theorem regInj_lookup_inj (r : Reg) (h : RegInj r) (k1 k2 n : Name)
     · exact ih ht m1 m2
 
 end GqlgenVerif.Naming
+
+namespace GqlgenVerif.Naming
+
+/-! ## character classes -/
+
+theorem upC_ident (c : Nat) (h : isIdentChar c = true) : isIdentChar (upC c) = true := by
+  simp only [isIdentChar, isLetter, isLower, isUpper, isDigit, upC, Bool.or_eq_true, Bool.and_eq_true,
+    decide_eq_true_eq, beq_iff_eq] at *
+  split <;> omega
+
+theorem loC_ident (c : Nat) (h : isIdentChar c = true) : isIdentChar (loC c) = true := by
+  simp only [isIdentChar, isLetter, isLower, isUpper, isDigit, loC, Bool.or_eq_true, Bool.and_eq_true,
+    decide_eq_true_eq, beq_iff_eq] at *
+  split <;> omega
+
+theorem upC_letter_upper (c : Nat) (h : isLetter c = true) : isUpper (upC c) = true := by
+  simp only [isLetter, isLower, isUpper, upC, Bool.or_eq_true, Bool.and_eq_true, decide_eq_true_eq] at *
+  split <;> omega
+
+theorem loC_letter (c : Nat) (h : isLetter c = true) : isLetter (loC c) = true := by
+  simp only [isLetter, isLower, isUpper, loC, Bool.or_eq_true, Bool.and_eq_true, decide_eq_true_eq] at *
+  split <;> omega
+
+theorem upC_loC_letter_upper (c : Nat) (h : isLetter c = true) : isUpper (upC (loC c)) = true :=
+  upC_letter_upper _ (loC_letter c h)
+
+theorem upper_isLetter (c : Nat) (h : isUpper c = true) : isLetter c = true := by
+  simp [isLetter, h]
+
+theorem loC_of_lower (c : Nat) (h : isLower c = true) : loC c = c := by
+  simp only [isLower, isUpper, loC, Bool.and_eq_true, decide_eq_true_eq] at *
+  split <;> omega
+
+theorem lower_of_all_lower (w : Name) (h : ∀ x ∈ w, isLower x = true) : lower w = w := by
+  induction w with
+  | nil => rfl
+  | cons a t ih =>
+    simp only [lower, List.map_cons]
+    rw [loC_of_lower a (h a (by simp))]
+    congr 1
+    exact ih (fun x hx => h x (by simp [hx]))
+
+theorem letter_not_upper_lower (c : Nat) (h : isLetter c = true) (hu : isUpper c = false) : isLower c = true := by
+  simp only [isLetter, Bool.or_eq_true] at h
+  rcases h with h | h
+  · exact h
+  · rw [h] at hu; cases hu
+
+theorem mem_upper (w : Name) (P : Nat → Prop) (hP : ∀ c, P c → P (upC c)) (h : ∀ x ∈ w, P x) : ∀ x ∈ upper w, P x := by
+  intro x hx
+  simp only [upper, List.mem_map] at hx
+  obtain ⟨y, hy, rfl⟩ := hx
+  exact hP y (h y hy)
+
+theorem mem_lower (w : Name) (P : Nat → Prop) (hP : ∀ c, P c → P (loC c)) (h : ∀ x ∈ w, P x) : ∀ x ∈ lower w, P x := by
+  intro x hx
+  simp only [lower, List.mem_map] at hx
+  obtain ⟨y, hy, rfl⟩ := hx
+  exact hP y (h y hy)
+
+theorem mem_ucFirst (w : Name) (P : Nat → Prop) (hP : ∀ c, P c → P (upC c)) (h : ∀ x ∈ w, P x) : ∀ x ∈ ucFirst w, P x := by
+  cases w with
+  | nil => simp [ucFirst]
+  | cons a t =>
+    intro x hx
+    simp only [ucFirst, List.mem_cons] at hx
+    rcases hx with rfl | hx
+    · exact hP a (h a (by simp))
+    · exact h x (by simp [hx])
+
+theorem mem_lcFirst (w : Name) (P : Nat → Prop) (hP : ∀ c, P c → P (loC c)) (h : ∀ x ∈ w, P x) : ∀ x ∈ lcFirst w, P x := by
+  cases w with
+  | nil => simp [lcFirst]
+  | cons a t =>
+    intro x hx
+    simp only [lcFirst, List.mem_cons] at hx
+    rcases hx with rfl | hx
+    · exact hP a (h a (by simp))
+    · exact h x (by simp [hx])
+
+/-- every character `xform` writes is the (case-mapped) image of a character of the word -/
+theorem xform_chars (priv : Bool) (w : WordInfo) (h : ∀ x ∈ w.word, isIdentChar x = true) :
+    ∀ x ∈ xform priv w, isIdentChar x = true := by
+  unfold xform
+  simp only
+  split
+  · split
+    · exact mem_lower _ _ loC_ident h
+    · exact mem_lcFirst _ _ loC_ident h
+  · split
+    · exact mem_upper _ _ upC_ident h
+    · split
+      · exact mem_ucFirst _ _ upC_ident (mem_lower _ _ loC_ident h)
+      · exact h
+
+/-! ## lookAhead -/
+
+theorem skipRun_spec (last : Nat) (r : List Nat) :
+    (∀ x ∈ (skipRun last r).2, x ∈ r) ∧ ((skipRun last r).1 = last ∨ (skipRun last r).1 ∈ r) ∧
+    (skipRun last r).2.length ≤ r.length := by
+  induction r generalizing last with
+  | nil => simp [skipRun]
+  | cons d t ih =>
+    simp only [skipRun]
+    split
+    · obtain ⟨h1, h2, h3⟩ := ih d
+      refine ⟨fun x hx => List.mem_cons_of_mem _ (h1 x hx), ?_, by simp only [List.length_cons]; omega⟩
+      right
+      rcases h2 with h2 | h2
+      · rw [h2]; simp
+      · exact List.mem_cons_of_mem _ h2
+    · simp
+
+theorem lookAhead_mem (c : Nat) (rest : List Nat) : ∀ x ∈ (lookAhead c rest).2, x ∈ rest := by
+  unfold lookAhead
+  cases rest with
+  | nil => simp
+  | cons d r =>
+    simp only
+    obtain ⟨h1, h2, _⟩ := skipRun_spec d r
+    split
+    · split
+      · simp
+      · rename_i last e r' heq
+        rw [heq] at h1 h2
+        simp only at h1 h2
+        have hl : last ∈ d :: r := by
+          rcases h2 with h2 | h2
+          · rw [h2]; simp
+          · exact List.mem_cons_of_mem _ h2
+        split
+        · intro x hx
+          simp only [List.mem_cons] at hx
+          rcases hx with rfl | hx
+          · exact hl
+          · exact List.mem_cons_of_mem _ (h1 x (by simpa using hx))
+        · intro x hx
+          exact List.mem_cons_of_mem _ (h1 x hx)
+    · split <;> simp
+
+theorem lookAhead_length (c : Nat) (rest : List Nat) : (lookAhead c rest).2.length ≤ rest.length := by
+  unfold lookAhead
+  cases rest with
+  | nil => simp
+  | cons d r =>
+    simp only
+    obtain ⟨_, _, h3⟩ := skipRun_spec d r
+    split
+    · split
+      · simp
+      · rename_i last e r' heq
+        rw [heq] at h3
+        simp only [List.length_cons] at h3 ⊢
+        split <;> simp only [List.length_cons] <;> omega
+    · split <;> simp
+
+/-- when the look-ahead does not end the word, nothing was deleted, the text goes on, and a lower-case
+character is followed by a lower-case one -/
+theorem lookAhead_noeow (c : Nat) (rest : List Nat) (h : (lookAhead c rest).1 = false) :
+    (lookAhead c rest).2 = rest ∧ ∃ d r, rest = d :: r ∧ (isLower c = true → isLower d = true) := by
+  unfold lookAhead at h ⊢
+  cases rest with
+  | nil => simp at h
+  | cons d r =>
+    simp only at h ⊢
+    split at h
+    · split at h
+      · simp at h
+      · split at h <;> simp at h
+    · rename_i hd
+      split at h
+      · simp at h
+      · rename_i hl
+        rw [if_neg hd, if_neg hl]
+        refine ⟨rfl, d, r, rfl, ?_⟩
+        intro hc
+        simp only [Bool.and_eq_true, Bool.not_eq_true', not_and, Bool.not_eq_false] at hl
+        exact hl hc
+
+end GqlgenVerif.Naming
+
+namespace GqlgenVerif.Naming
+
+/-! ## one iteration of wordWalker -/
+
+/-- no regenerated initialism contains a lower-case letter (the table is re-read from the source) -/
+theorem inits_no_lower : ∀ w ∈ inits, ∀ x ∈ w, isLower x = false := by decide
+
+theorem not_init_of_lower (w : Name) (x : Nat) (hx : x ∈ w) (hl : isLower x = true) : inits.contains w = false := by
+  cases h : inits.contains w with
+  | false => rfl
+  | true =>
+    have := inits_no_lower w (by simpa using h) x hx
+    rw [this] at hl; cases hl
+
+theorem stepWord_cont (wo : Nat) (hci : Bool) (cur : List Nat) (c : Nat) (rest : List Nat)
+    (hci' : Bool) (word rest' : List Nat) (h : stepWord wo hci cur c rest = .cont hci' word rest') :
+    word = cur ++ [c] ∧ rest' = rest ∧ (∃ d r, rest = d :: r ∧ (isLower c = true → isLower d = true)) ∧
+    (hci' = hci ∨ inits.contains word = true) := by
+  unfold stepWord at h
+  simp only at h
+  by_cases h1 : (!(lookAhead c rest).1 && !(inits.contains (cur ++ [c]) && headNotLower (lookAhead c rest).2)) = true
+  · rw [if_pos h1] at h
+    simp only [Bool.and_eq_true, Bool.not_eq_true'] at h1
+    obtain ⟨e1, e2⟩ := lookAhead_noeow c rest h1.1
+    injection h with ha hb hc
+    refine ⟨hb.symm, by rw [← hc, e1], e2, ?_⟩
+    cases hi : inits.contains (cur ++ [c]) with
+    | false => left; rw [← ha, hi]; simp
+    | true => right; rw [← hb]; exact hi
+  · rw [if_neg h1] at h
+    by_cases h2 : inits.contains (upper (cur ++ [c])) = true
+    · rw [if_pos h2] at h
+      by_cases h3 : (shorts.contains (upper (cur ++ [c])) && !(lookAhead c rest).1 && idipSkip (cur ++ [c]) (lookAhead c rest).2) = true
+      · rw [if_pos h3] at h
+        simp only [Bool.and_eq_true, Bool.not_eq_true'] at h3
+        obtain ⟨e1, e2⟩ := lookAhead_noeow c rest h3.1.2
+        injection h with ha hb hc
+        exact ⟨hb.symm, by rw [← hc, e1], e2, Or.inl ha.symm⟩
+      · rw [if_neg h3] at h; cases h
+    · rw [if_neg h2] at h; cases h
+
+theorem stepWord_emit (wo : Nat) (hci : Bool) (cur : List Nat) (c : Nat) (rest : List Nat)
+    (info : WordInfo) (rest' : List Nat) (h : stepWord wo hci cur c rest = .emit info rest') :
+    info.word = cur ++ [c] ∧ info.wordOffset = wo ∧ (info.matchCI = true ∨ (info.matchCI = false ∧ info.hasCI = hci)) ∧
+    (∀ x ∈ rest', x ∈ rest) ∧ rest'.length ≤ rest.length := by
+  unfold stepWord at h
+  simp only at h
+  by_cases h1 : (!(lookAhead c rest).1 && !(inits.contains (cur ++ [c]) && headNotLower (lookAhead c rest).2)) = true
+  · rw [if_pos h1] at h; cases h
+  · rw [if_neg h1] at h
+    by_cases h2 : inits.contains (upper (cur ++ [c])) = true
+    · rw [if_pos h2] at h
+      by_cases h3 : (shorts.contains (upper (cur ++ [c])) && !(lookAhead c rest).1 && idipSkip (cur ++ [c]) (lookAhead c rest).2) = true
+      · rw [if_pos h3] at h; cases h
+      · rw [if_neg h3] at h
+        injection h with ha hb
+        subst ha hb
+        exact ⟨rfl, rfl, Or.inl rfl, lookAhead_mem c rest, lookAhead_length c rest⟩
+    · rw [if_neg h2] at h
+      injection h with ha hb
+      subst ha hb
+      exact ⟨rfl, rfl, Or.inr ⟨rfl, rfl⟩, lookAhead_mem c rest, lookAhead_length c rest⟩
+
+/-! ## every character of every word comes from the input -/
+
+theorem walkAux_mem (fuel wo : Nat) (hci : Bool) (cur rest : List Nat) :
+    ∀ w ∈ walkAux fuel wo hci cur rest, ∀ x ∈ w.word, x ∈ cur ∨ x ∈ rest := by
+  induction fuel generalizing wo hci cur rest with
+  | zero => simp [walkAux]
+  | succ f ih =>
+    cases rest with
+    | nil => simp [walkAux]
+    | cons c r =>
+      intro w hw x hx
+      simp only [walkAux] at hw
+      split at hw
+      · rename_i hci' word rest' hs
+        obtain ⟨e1, e2, _, _⟩ := stepWord_cont _ _ _ _ _ _ _ _ hs
+        subst e1 e2
+        rcases ih _ _ _ _ w hw x hx with h | h
+        · simp only [List.mem_append, List.mem_singleton] at h
+          rcases h with h | h
+          · exact Or.inl h
+          · exact Or.inr (by simp [h])
+        · exact Or.inr (List.mem_cons_of_mem _ h)
+      · rename_i info rest' hs
+        obtain ⟨e1, _, _, e4, _⟩ := stepWord_emit _ _ _ _ _ _ _ hs
+        simp only [List.mem_cons] at hw
+        rcases hw with rfl | hw
+        · rw [e1] at hx
+          simp only [List.mem_append, List.mem_singleton] at hx
+          rcases hx with h | h
+          · exact Or.inl h
+          · exact Or.inr (by simp [h])
+        · rcases ih _ _ _ _ w hw x hx with h | h
+          · simp at h
+          · exact Or.inr (List.mem_cons_of_mem _ (e4 x h))
+
+theorem trim_mem (s : Name) : ∀ x ∈ trim s, x ∈ s := by
+  intro x hx
+  unfold trim at hx
+  rw [List.mem_reverse] at hx
+  have h1 := (List.dropWhile_sublist isDelim).subset hx
+  rw [List.mem_reverse] at h1
+  exact (List.dropWhile_sublist isDelim).subset h1
+
+theorem walk_chars (name : Name) (h : ∀ c ∈ name, isIdentChar c = true) :
+    ∀ w ∈ walk name, ∀ x ∈ w.word, isIdentChar x = true := by
+  intro w hw x hx
+  unfold walk at hw
+  rcases walkAux_mem _ _ _ _ _ w hw x hx with h1 | h1
+  · simp at h1
+  · exact h x (trim_mem name x h1)
+
+theorem flatMap_xform_chars (priv : Bool) (ws : List WordInfo)
+    (h : ∀ w ∈ ws, ∀ x ∈ w.word, isIdentChar x = true) : ∀ x ∈ ws.flatMap (xform priv), isIdentChar x = true := by
+  intro x hx
+  rw [List.mem_flatMap] at hx
+  obtain ⟨w, hw, hxw⟩ := hx
+  exact xform_chars priv w (h w hw) x hxw
+
+end GqlgenVerif.Naming
+
+namespace GqlgenVerif.Naming
+
+/-! ## the first character of the output -/
+
+theorem xform_head (priv : Bool) (w : WordInfo) (h : Nat) (t : List Nat) (hw : w.word = h :: t)
+    (hl : isLetter h = true)
+    (hlow : isLower h = true → (∀ x ∈ w.word, isLower x = true) ∧ (w.matchCI = false → w.hasCI = false)) :
+    ∃ u r, xform priv w = u :: r ∧ isLetter u = true ∧ ((priv && w.wordOffset == 0) = false → isUpper u = true) := by
+  unfold xform
+  simp only
+  by_cases c1 : (priv && w.wordOffset == 0) = true
+  · rw [if_pos c1]
+    split
+    · refine ⟨loC h, lower t, by rw [hw]; rfl, loC_letter h hl, ?_⟩
+      intro hf; rw [c1] at hf; cases hf
+    · refine ⟨loC h, t, by rw [hw]; rfl, loC_letter h hl, ?_⟩
+      intro hf; rw [c1] at hf; cases hf
+  · rw [if_neg c1]
+    by_cases c2 : w.matchCI = true
+    · rw [if_pos c2]
+      exact ⟨upC h, upper t, by rw [hw]; rfl, upper_isLetter _ (upC_letter_upper h hl), fun _ => upC_letter_upper h hl⟩
+    · rw [if_neg c2]
+      by_cases c3 : (!w.hasCI && (upper w.word == w.word || lower w.word == w.word)) = true
+      · rw [if_pos c3]
+        refine ⟨upC (loC h), lower t, by rw [hw]; rfl, upper_isLetter _ (upC_loC_letter_upper h hl), fun _ => upC_loC_letter_upper h hl⟩
+      · rw [if_neg c3]
+        cases hu : isUpper h with
+        | true => exact ⟨h, t, hw, hl, fun _ => hu⟩
+        | false =>
+          exfalso
+          have hlo := letter_not_upper_lower h hl hu
+          obtain ⟨hall, hci⟩ := hlow hlo
+          have hm : w.matchCI = false := by cases hm : w.matchCI <;> simp_all
+          apply c3
+          rw [hci hm, lower_of_all_lower _ hall]
+          simp
+
+/-- what the loop knows about the word in progress whose first character is lower case -/
+def HeadInv (cur rest : List Nat) (hci : Bool) : Prop :=
+  (cur = [] → hci = false) ∧
+  (∀ h t, cur = h :: t → isLower h = true →
+    (∀ x ∈ cur, isLower x = true) ∧ hci = false ∧ (∀ d r, rest = d :: r → isLower d = true))
+
+theorem headInv_step (cur : List Nat) (c : Nat) (rest : List Nat) (hci hci' : Bool)
+    (inv : HeadInv cur (c :: rest) hci)
+    (hnext : ∃ d r, rest = d :: r ∧ (isLower c = true → isLower d = true))
+    (hh : hci' = hci ∨ inits.contains (cur ++ [c]) = true) :
+    HeadInv (cur ++ [c]) rest hci' := by
+  obtain ⟨d, r, hr, hcd⟩ := hnext
+  refine ⟨fun h => by simp at h, ?_⟩
+  intro h t hcur hlow
+  -- all characters of the new word are lower case, and the old flag was false
+  have key : (∀ x ∈ cur ++ [c], isLower x = true) ∧ hci = false := by
+    cases cur with
+    | nil =>
+      simp only [List.nil_append, List.cons.injEq] at hcur
+      obtain ⟨rfl, _⟩ := hcur
+      exact ⟨by simpa using hlow, inv.1 rfl⟩
+    | cons a as =>
+      simp only [List.cons_append, List.cons.injEq] at hcur
+      obtain ⟨rfl, _⟩ := hcur
+      obtain ⟨hall, hf, hn⟩ := inv.2 a as rfl hlow
+      refine ⟨?_, hf⟩
+      intro x hx
+      simp only [List.cons_append, List.mem_cons, List.mem_append, List.not_mem_nil, or_false] at hx
+      rcases hx with rfl | hx | rfl
+      · exact hlow
+      · exact hall x (by simp [hx])
+      · exact hn x rest rfl
+  refine ⟨key.1, ?_, ?_⟩
+  · rcases hh with hh | hh
+    · rw [hh]; exact key.2
+    · have : h ∈ cur ++ [c] := by rw [hcur]; simp
+      rw [not_init_of_lower _ h this hlow] at hh
+      cases hh
+  · intro d' r' hr'
+    rw [hr] at hr'
+    injection hr' with e1 _
+    subst e1
+    exact hcd (key.1 c (by simp))
+
+theorem walkAux_first (priv : Bool) (fuel : Nat) : ∀ (wo : Nat) (hci : Bool) (cur rest : List Nat),
+    rest ≠ [] → rest.length < fuel → HeadInv cur rest hci →
+    (∃ h, (cur ++ rest).head? = some h ∧ isLetter h = true) →
+    ∃ w ws, walkAux fuel wo hci cur rest = w :: ws ∧
+      ∃ u r, xform priv w = u :: r ∧ isLetter u = true ∧ ((priv && wo == 0) = false → isUpper u = true) := by
+  induction fuel with
+  | zero => intro _ _ _ _ _ h; omega
+  | succ f ih =>
+    intro wo hci cur rest hne hlen inv ⟨h, hh, hl⟩
+    cases rest with
+    | nil => exact absurd rfl hne
+    | cons c r =>
+      simp only [walkAux]
+      cases hs : stepWord wo hci cur c r with
+      | cont hci' word rest' =>
+        obtain ⟨e1, e2, e3, e4⟩ := stepWord_cont _ _ _ _ _ _ _ _ hs
+        simp only
+        rw [e1, e2]
+        have e3' := e3
+        obtain ⟨d, r', hr, _⟩ := e3'
+        apply ih wo hci' (cur ++ [c]) r
+        · rw [hr]; simp
+        · simp only [List.length_cons] at hlen; omega
+        · exact headInv_step cur c r hci hci' inv e3 (e1 ▸ e4)
+        · exact ⟨h, by simpa using hh, hl⟩
+      | emit info rest' =>
+        obtain ⟨e1, e2, e3, _, _⟩ := stepWord_emit _ _ _ _ _ _ _ hs
+        simp only
+        refine ⟨info, _, rfl, ?_⟩
+        -- the word starts with h
+        have hw : ∃ t, info.word = h :: t := by
+          rw [e1]
+          cases cur with
+          | nil => simp at hh; exact ⟨[], by simp [hh]⟩
+          | cons a as => simp at hh; exact ⟨as ++ [c], by simp [hh]⟩
+        obtain ⟨t, hw⟩ := hw
+        have := xform_head priv info h t hw hl ?_
+        · rw [e2] at this; exact this
+        · intro hlow
+          have key : (∀ x ∈ cur ++ [c], isLower x = true) ∧ hci = false := by
+            cases cur with
+            | nil =>
+              simp only [List.nil_append, List.head?_cons, Option.some.injEq] at hh
+              subst hh
+              exact ⟨by simpa using hlow, inv.1 rfl⟩
+            | cons a as =>
+              simp only [List.cons_append, List.head?_cons, Option.some.injEq] at hh
+              subst hh
+              obtain ⟨hall, hf, hn⟩ := inv.2 a as rfl hlow
+              refine ⟨?_, hf⟩
+              intro x hx
+              simp only [List.cons_append, List.mem_cons, List.mem_append, List.not_mem_nil, or_false] at hx
+              rcases hx with rfl | hx | rfl
+              · exact hlow
+              · exact hall x (by simp [hx])
+              · exact hn x r rfl
+          refine ⟨by rw [e1]; exact key.1, ?_⟩
+          intro hm
+          rcases e3 with e3 | ⟨_, e3⟩
+          · rw [e3] at hm; cases hm
+          · rw [e3]; exact key.2
+
+end GqlgenVerif.Naming
+
+namespace GqlgenVerif.Naming
+
+theorem letter_not_delim (c : Nat) (h : isLetter c = true) : isDelim c = false := by
+  simp only [isLetter, isLower, isUpper, isDelim, isSpace, Bool.or_eq_true, Bool.and_eq_true, decide_eq_true_eq,
+    Bool.or_eq_false_iff, beq_eq_false_iff_ne, ne_eq, Bool.and_eq_false_iff, decide_eq_false_iff_not] at *
+  omega
+
+theorem dropWhile_append_singleton (p : Nat → Bool) (xs : List Nat) (a : Nat) (h : p a = false) :
+    (xs ++ [a]).dropWhile p = xs.dropWhile p ++ [a] := by
+  induction xs with
+  | nil => simp [List.dropWhile, h]
+  | cons x t ih =>
+    simp only [List.cons_append, List.dropWhile_cons]
+    split
+    · exact ih
+    · rfl
+
+/-- trimming keeps the first non-delimiter character in front -/
+theorem trim_head (s : Name) (h : Nat) (t : List Nat) (hs : s.dropWhile isDelim = h :: t) (hd : isDelim h = false) :
+    ∃ t', trim s = h :: t' := by
+  unfold trim
+  rw [hs, List.reverse_cons, dropWhile_append_singleton _ _ _ hd, List.reverse_append]
+  exact ⟨_, rfl⟩
+
+/-- the hypothesis of the partial theorems: after leading delimiters the name starts with a letter -/
+def StartsWithLetter (name : Name) : Prop := ∃ h t, name.dropWhile isDelim = h :: t ∧ isLetter h = true
+
+theorem walk_first (priv : Bool) (name : Name) (hs : StartsWithLetter name) :
+    ∃ u r, (walk name).flatMap (xform priv) = u :: r ∧ isLetter u = true ∧ (priv = false → isUpper u = true) := by
+  obtain ⟨h, t, hd, hl⟩ := hs
+  obtain ⟨t', ht⟩ := trim_head name h t hd (letter_not_delim h hl)
+  unfold walk
+  simp only [ht]
+  obtain ⟨w, ws, hw, u, r, hx, hlu, hup⟩ := walkAux_first priv ((h :: t').length + 1) 0 false [] (h :: t')
+    (by simp) (by omega) ⟨fun _ => rfl, fun _ _ hc => by cases hc⟩ ⟨h, by simp, hl⟩
+  refine ⟨u, r ++ ws.flatMap (xform priv), ?_, hlu, ?_⟩
+  · rw [hw, List.flatMap_cons, hx]; rfl
+  · intro hp
+    apply hup
+    rw [hp]; rfl
+
+theorem startsWithLetter_ne_underscore (name : Name) (hs : StartsWithLetter name) : (name == underscore) = false := by
+  cases h : name == underscore with
+  | false => rfl
+  | true =>
+    have : name = underscore := by simpa using h
+    obtain ⟨a, t, hd, _⟩ := hs
+    rw [this] at hd
+    simp [underscore, List.dropWhile, isDelim] at hd
+
+theorem suffix_chars : ∀ c ∈ suffix, isIdentChar c = true := by decide
+
+end GqlgenVerif.Naming
